@@ -4,7 +4,14 @@ from io import BytesIO
 from typing import Dict, List, Mapping, Optional, Sequence, Tuple, Union, cast
 
 from pdfminer import settings
-from pdfminer.casting import safe_cmyk, safe_float, safe_int, safe_matrix, safe_rgb
+from pdfminer.casting import (
+    safe_cmyk,
+    safe_float,
+    safe_int,
+    safe_matrix,
+    safe_rect_list,
+    safe_rgb,
+)
 from pdfminer.cmapdb import CMap, CMapBase, CMapDB
 from pdfminer.pdfcolor import PREDEFINED_COLORSPACE, PDFColorSpace
 from pdfminer.pdfdevice import PDFDevice, PDFTextSeq
@@ -43,7 +50,6 @@ from pdfminer.utils import (
     Matrix,
     PathSegment,
     Point,
-    Rect,
     choplist,
     mult_matrix,
 )
@@ -1191,9 +1197,15 @@ class PDFPageInterpreter:
         log.debug("Processing xobj: %r", xobj)
         subtype = xobj.get("Subtype")
         if subtype is LITERAL_FORM and "BBox" in xobj:
+            bbox = safe_rect_list(list_value(xobj["BBox"]))
+            matrix_values = list_value(xobj.get("Matrix", MATRIX_IDENTITY))
+            matrix = safe_matrix(*matrix_values) if len(matrix_values) == 6 else None
+            if bbox is None or matrix is None:
+                # a form without four / six numbers here cannot be placed
+                if settings.STRICT:
+                    raise PDFInterpreterError("Invalid BBox or Matrix: %r" % xobjid)
+                return
             interpreter = self.dup()
-            bbox = cast(Rect, list_value(xobj["BBox"]))
-            matrix = cast(Matrix, list_value(xobj.get("Matrix", MATRIX_IDENTITY)))
             # According to PDF reference 1.7 section 4.9.1, XObjects in
             # earlier PDFs (prior to v1.2) use the page's Resources entry
             # instead of having their own Resources entry.
